@@ -176,3 +176,96 @@ package fsutil
 //@   ensures last: err == nil && retErr == nil ==> v.parentDirs[len(v.parentDirs) - 1 - ite(specVPushed(kind, fi), 1, 0)].last == filepath.Base(p) && v.parentDirs[len(v.parentDirs) - 1 - ite(specVPushed(kind, fi), 1, 0)].dir == specVDir(p)
 //@   ensures push: err == nil && retErr == nil && specVPushed(kind, fi) ==> v.parentDirs[len(v.parentDirs) - 1].dir == filepath.Join(specVDir(p), filepath.Base(p)) && v.parentDirs[len(v.parentDirs) - 1].last == ""
 //@   ensures keep: err == nil && retErr == nil && old(v.parentDirs) != nil ==> forall k int :: 0 <= k && k < len(v.parentDirs) - 1 - ite(specVPushed(kind, fi), 1, 0) ==> v.parentDirs[k].dir == old(v.parentDirs[k].dir) && v.parentDirs[k].last == old(v.parentDirs[k].last)
+
+// ---------------------------------------------------------------------------
+// send.go
+// ---------------------------------------------------------------------------
+
+// every send goes through the lock bracket
+//@ func syncStream.SendMsg
+//@   property C06
+//@   requires ss != nil
+//@   effects MuLock MuUnlock SendMsg
+//@   ensures bracket: cnt(MuLock) == old(cnt(MuLock)) + 1 && cnt(SendMsg) == old(cnt(SendMsg)) + 1 && cnt(MuUnlock) == old(cnt(MuUnlock)) + 1
+//@   ensures order: when(MuLock) < when(SendMsg) && when(SendMsg) < when(MuUnlock)
+
+// an id can be requested iff it was announced as a regular file and not yet
+// requested; a successful request consumes the id and enqueues {id, path}
+//@ func sender.queue
+//@   property C06
+//@   requires s != nil && s.files != nil
+//@   modifies s.files[*]
+//@   effects MuLock MuUnlock ChanSend
+//@   ensures known: old(haskey(s.files, id)) ==> result == nil && cnt(ChanSend) == old(cnt(ChanSend)) + 1 && ptr(arg(ChanSend, 1), sendHandle).id == id && ptr(arg(ChanSend, 1), sendHandle).path == old(s.files[id])
+//@   ensures unknown: !old(haskey(s.files, id)) ==> result != nil && cnt(ChanSend) == old(cnt(ChanSend))
+//@   ensures consumed: !haskey(s.files, id)
+//@   ensures frame: forall k uint32 :: k != id ==> haskey(s.files, k) == old(haskey(s.files, k)) && s.files[k] == old(s.files[k])
+//@   ensures unlocked: cnt(MuLock) == cnt(MuUnlock) - old(cnt(MuUnlock)) + old(cnt(MuLock))
+
+// progress is accumulated under its own lock
+//@ func sender.updateProgress
+//@   property C06
+//@   requires s != nil
+//@   modifies s.progressCurrent
+//@   effects MuLock MuUnlock Progress
+//@   ensures off: s.progressCb == nil ==> cnt(Progress) == old(cnt(Progress)) && s.progressCurrent == old(s.progressCurrent)
+//@   ensures on: s.progressCb != nil ==> cnt(Progress) == old(cnt(Progress)) + 1 && arg(Progress, 0) == old(s.progressCurrent) + size && arg(Progress, 1) == last && s.progressCurrent == old(s.progressCurrent) + size
+//@   ensures bracket: cnt(MuLock) - old(cnt(MuLock)) == cnt(MuUnlock) - old(cnt(MuUnlock))
+
+// one DATA packet per non-empty chunk, nothing for an empty one
+//@ func fileSender.Write
+//@   property C06
+//@   requires fs != nil && fs.sender != nil
+//@   modifies type sender
+//@   effects SendMsg MuLock MuUnlock Progress
+//@   ensures empty: len(dt) == 0 ==> result0 == 0 && result1 == nil && cnt(SendMsg) == old(cnt(SendMsg))
+//@   ensures chunk: len(dt) > 0 ==> cnt(SendMsg) == old(cnt(SendMsg)) + 1 && arg(SendMsg, 0) == types.PACKET_DATA && arg(SendMsg, 1) == old(fs.id) && arg(SendMsg, 2) == len(dt)
+//@   ensures count: len(dt) > 0 && result1 == nil ==> result0 == len(dt)
+//@   ensures failed: result1 != nil ==> result0 == 0
+
+// whatever happens to the content, a nil result means the last packet sent is
+// the empty DATA terminator for this id; an open failure sends only that
+//@ func sender.sendFile
+//@   property C06 C11
+//@   requires s != nil && h != nil
+//@   modifies type sender, global bufPool, array byte
+//@   effects SendMsg MuLock MuUnlock Progress
+//@   ensures terminator: result == nil ==> cnt(SendMsg) >= old(cnt(SendMsg)) + 1 && arg(SendMsg, 0) == types.PACKET_DATA && arg(SendMsg, 1) == old(h.id) && arg(SendMsg, 2) == 0
+
+//@ pred specCanRequest(mode uint32) bool = mode & 0x8f280000 == 0
+
+// the per-entry callback of the sender's walk: exactly one STAT per entry, the
+// id counter advances by one per STAT sent (for every entry type), and a
+// regular file is registered under the id it was announced with before the
+// STAT leaves (a request may arrive as soon as the STAT is out)
+//@ func sender.walk$1
+//@   property C06
+//@   requires s != nil && s.files != nil
+//@   modifies s.files[*], type sender, type types.Stat
+//@   effects SendMsg MuLock MuUnlock Progress
+//@   ensures passerr: err != nil ==> result == err && i == old(i) && cnt(SendMsg) == old(cnt(SendMsg))
+//@   ensures atmost: cnt(SendMsg) <= old(cnt(SendMsg)) + 1
+//@   ensures sent: result == nil ==> cnt(SendMsg) == old(cnt(SendMsg)) + 1
+//@   ensures stat: cnt(SendMsg) == old(cnt(SendMsg)) + 1 ==> arg(SendMsg, 0) == types.PACKET_STAT && arg(SendMsg, 3) != nil
+//@   ensures counter: cnt(SendMsg) == old(cnt(SendMsg)) + 1 ==> i == old(i) + 1
+//@   ensures nocount: cnt(SendMsg) == old(cnt(SendMsg)) ==> i == old(i) && (forall k uint32 :: haskey(s.files, k) == old(haskey(s.files, k)) && s.files[k] == old(s.files[k]))
+//@   ensures reg: cnt(SendMsg) == old(cnt(SendMsg)) + 1 && specCanRequest(arg(SendMsg, 3).Mode) ==> haskey(s.files, old(i)) && s.files[old(i)] == arg(SendMsg, 3).Path
+//@   ensures noreg: cnt(SendMsg) == old(cnt(SendMsg)) + 1 && !specCanRequest(arg(SendMsg, 3).Mode) ==> haskey(s.files, old(i)) == old(haskey(s.files, old(i)))
+//@   ensures frame: forall k uint32 :: k != old(i) ==> haskey(s.files, k) == old(haskey(s.files, k)) && s.files[k] == old(s.files[k])
+//@   at call Stream.SendMsg: registered_before_send: specCanRequest(stat.Mode) ==> haskey(s.files, old(i)) && s.files[old(i)] == stat.Path
+
+// after a complete walk exactly one more STAT, the empty one, is sent last
+//@ func sender.walk
+//@   property C06
+//@   requires s != nil
+//@   modifies heap
+//@   effects SendMsg MuLock MuUnlock Progress RecvMsg ChanSend
+//@   ensures endmarker: result == nil ==> cnt(SendMsg) >= old(cnt(SendMsg)) + 1 && arg(SendMsg, 0) == types.PACKET_STAT && arg(SendMsg, 3) == nil
+
+// the request loop: a nil result means FIN was received and echoed as the last message
+//@ func sender.run$3
+//@   property C06
+//@   requires s != nil && s.files != nil
+//@   modifies heap
+//@   effects SendMsg MuLock MuUnlock RecvMsg ChanSend
+//@   ensures fin: result == nil ==> cnt(SendMsg) >= old(cnt(SendMsg)) + 1 && arg(SendMsg, 0) == types.PACKET_FIN
